@@ -11,6 +11,9 @@ open Fcppt
 /-- `cast::truncation_check<Dest>`: the value itself iff it is representable in `Dest`. -/
 def truncSpec (d : IntTy) (x : Int) : Option Int := if d.InRange x then some x else none
 
+/-- `cast::truncation_check<bool>`: `bool` holds exactly 0 and 1 -/
+def truncBoolSpec (x : Int) : Option Bool := if 0 ≤ x ∧ x ≤ 1 then some (decide (x = 1)) else none
+
 /-- `enum_::from_int<Enum>`: an enumerator iff the integer is below the enum's size. -/
 def fromIntSpec (size x : Int) : Option Int := if x < size then some x else none
 
